@@ -301,7 +301,12 @@ impl Qcow2Header {
         // Only deflate is implemented. A compression type without its
         // incompatible feature bit (refused below) is still not deflate;
         // the field exists only if the header is long enough to hold it.
-        if header.header_length > Self::COMPRESSION_TYPE_OFFSET && header.compression_type != 0 {
+        if header.header_length <= Self::COMPRESSION_TYPE_OFFSET {
+            // that byte is the start of the extension area then, and must
+            // not come back as a compression type when the header is
+            // written out with its full length
+            header.compression_type = 0;
+        } else if header.compression_type != 0 {
             let t = header.compression_type;
             return Err(format!("qcow2 compression type {t} is not supported").into());
         }
